@@ -1,0 +1,36 @@
+//go:build verif
+
+// Contracts for gvc (/verif). Comment-only: this file adds no declarations.
+
+package vector
+
+// Abstract view of a Vector value: its length and its elements.
+//@ spec fn vec_len(v Vector) int
+//@ spec fn vec_at(v Vector, i int) any
+
+// Interface-level contracts (callers are checked against these; the
+// implementations vector and subVector are checked against them under C06).
+
+//@ func Vector.Len
+//@   pure
+//@   ensures result == vec_len(self)
+//@   ensures 0 <= result && result < 4611686018427387904
+
+//@ func Vector.Index
+//@   pure
+//@   results val ok
+//@   ensures ok == (0 <= i && i < vec_len(self))
+//@   ensures ok ==> val === vec_at(self, i)
+//@   ensures !ok ==> val == nil
+
+//@ func Vector.Assoc
+//@   pure
+//@   ensures (result != nil) == (0 <= i && i <= vec_len(self))
+//@   ensures 0 <= i && i < vec_len(self) ==> vec_len(result) == vec_len(self) && vec_at(result, i) === val
+//@   ensures 0 <= i && i < vec_len(self) ==> (forall k int :: 0 <= k && k < vec_len(self) && k != i ==> vec_at(result, k) === vec_at(self, k))
+
+//@ func Vector.SubVector
+//@   pure
+//@   ensures (result != nil) == (0 <= i && i <= j && j <= vec_len(self))
+//@   ensures result != nil ==> vec_len(result) == j - i
+//@   ensures result != nil ==> (forall k int :: 0 <= k && k < j - i ==> vec_at(result, k) === vec_at(self, i + k))
